@@ -32,6 +32,7 @@ def _child_env(extra=None):
     e["PYTHONPATH"] = env.REPO + os.pathsep + env.VERIF
     e["VF_REPO"] = env.REPO
     e["PYTHONDONTWRITEBYTECODE"] = "1"
+    e["PYTHONUTF8"] = "1"
     if extra:
         e.update(extra)
     return e
